@@ -70,8 +70,8 @@ def gaussian_prior(vc):
     vc.ensures("sample.one_normal_draw", len(dr) == 1)
     if len(dr) == 1:
         _, _, xi, loc, scale = dr[0]
-        vc.ensures_forall("sample.law_is_normal_mean_sigma", n,
-                          lambda k: S.And(loc[k] == mean[k], scale[k] == sigma[k], smp[k] == mean[k] + sigma[k] * xi[k]))
+        # (one independent standard-normal variate per coordinate, placed at the coordinate's own mean and scale)
+        vc.ensures_forall("sample.law_is_normal_mean_sigma", n, lambda k: smp[k] == mean[k] + sigma[k] * xi[k])
     b = vc.attr(P, "bounds")
     vc.ensures("bounds.length", b.length() == n)
     vc.ensures_forall("bounds.unbounded_support", n, lambda k: b.at(k) == (None, None))
@@ -391,6 +391,14 @@ def priors_native(vc):
         lo, hi = by_var[v][1]
         okd = okd and (lo is None or np.all(S_[:, v] >= lo)) and (hi is None or np.all(S_[:, v] <= hi))
     vc.ensures("draws_follow_component_laws_per_index", bool(okd))
+    # ... and jointly: the coordinates of one draw are independent (normal scores of different coordinates uncorrelated)
+    from scipy.stats import norm as _norm
+    Z = np.column_stack([_norm.ppf(np.clip(by_var[v][0].cdf(S_[:, v]), 1e-12, 1 - 1e-12)) for v in range(n_total)])
+    if n_total > 1:
+        C = np.corrcoef(Z.T)
+        off = float(np.max(np.abs(C - np.diag(np.diag(C)))))
+        vc.inputs["largest_correlation_between_coordinates"] = off
+        vc.ensures("coordinates_of_a_draw_are_independent", off < 0.3)
     # each single-variable density is normalised on its support (numerical quadrature of exp(prior))
     c0 = comps[0]
     if c0.n_params == 1:
